@@ -757,6 +757,25 @@ theorem initSeq_spec {nU : Nat} {w w' : World} {k : Which} {u n : Nat} {fx : Boo
       have := hI.sc.loc_lt s u (by simpa using hc')
       omega
 
+  | single it =>
+    have h' : (if (fx && n == 0) = true then Except.error Err.indexError
+        else (w.register k u n fx).loadGiven k u n fx [it]) = Except.ok w' := h
+    clear h
+    split at h'
+    · cases h'
+    · have G := initGiven_spec (nU := nU) h'
+      refine ⟨(register_init w k u n fx).trans G.1, fun hp hI hu hb => ?_⟩
+      obtain ⟨hP, hfx, hsz, hlu⟩ := register_pinv (n := n) (fx := fx) hI hu
+      have hg : ∀ s ∈ givens [it], s ∈ (PortsArg.single it).ids := by
+        intro s hs; cases it <;> simp_all [givens, PortsArg.ids]
+      apply G.2 hP hlu hfx hsz hu
+      · intro s hs; simpa [World.register] using hb s (hg s hs)
+      · cases it <;> simp [givens]
+      · intro s _ hc
+        have hc' : (w.side k).loc s = some u := by cases k <;> exact hc
+        have := hI.sc.loc_lt s u (by simpa using hc')
+        omega
+
 theorem newUnit_wstep {w w' : World} {ni no : Nat} {fi fo : Bool} {ai ao : PortsArg} {u : Nat}
     (h : w.newUnit ni fi ai no fo ao = .ok (w', u)) :
     WStep ((∀ s ∈ ai.ids, s < w.nS) ∧ (∀ s ∈ ao.ids, s < w.nS)) w w' := by
